@@ -49,8 +49,7 @@ class PredictWorld:
         self.model, self.sizes, self.generic = model, tuple(sizes), generic
         if generic:
             from .. import teams as T
-            self.S = extract.Scratch(model, transforms={extract.MODEL_FILES[model]: (T.FoldLoops(),)})
-            self.S.ns.update(T.REBINDS)
+            self.S = T.scratch(model)
         else:
             self.S = extract.Scratch(model)
         game.stub_phi_real(self.S)
@@ -307,3 +306,23 @@ def history_records(prop, W, model, sizes, ops, firsts=None):
         recs.append(driver.rec(f"{prop}/{model}/{op}/after-earlier-calls/same-as-first-use@{shape}", "discharged" if ok else "refuted", "field", time.time() - t0,
                                fn=fn, shape=shape, mode="R", replay=None if ok else rp, note=note))
     return recs
+
+
+def generic_guard(prop):
+    """a unit run with generic=True (teams of every size) that meets a loop outside the map/fold rule
+    reports `not attempted` (kind note) instead of failing: the listed team sizes still decide"""
+    def deco(f):
+        import functools
+
+        @functools.wraps(f)
+        def g(model, sizes, generic=False):
+            try:
+                return f(model, sizes, generic)
+            except EngineError as e:
+                from ..symrt import UncutLoop
+                if not generic or not isinstance(e, UncutLoop):
+                    raise
+                return [driver.rec(f"{prop}/{model}/any-team-size/unbounded-proof@n={len(sizes)}", "note", "explorer", 0, kind="note",
+                                   fn=f"{model}.predict_*", shape=f"n={len(sizes)},any-team-size", note=f"not attempted: {e}")]
+        return g
+    return deco
